@@ -26,16 +26,87 @@ def schedules(L, k):
     return list(itertools.combinations_with_replacement(range(0, L + 1), k))
 
 
+def _piece(stream, lo, hi):
+    # built element by element: a slice view of a concatenation keeps symbolic bounds inside the engine, which its
+    # sequence code cannot add to a buffer that was itself cut at a symbolic (byte-count dependent) position
+    return bytes([stream[i] for i in range(lo, hi)])
+
+
 def split(stream, cuts):
     out, prev = [], 0
+    L = len(stream)
     for c in cuts:
-        out.append(stream[prev:c])
+        out.append(_piece(stream, prev, c))
         prev = c
-    out.append(stream[prev:])
+    out.append(_piece(stream, prev, L))
     return out
 
 
-def make_chunk(framing, specs, shapes, ncuts, single_bytes=False):
+def rtu_bcpos(S):
+    """index of the byte-count field inside an RTU frame of this class (None: fixed-size frame) -- protocol facts"""
+    if S.dir == "rsp" and S.name in ("ReadCoilsResponse", "ReadDiscreteInputsResponse", "ReadHoldingRegistersResponse",
+                                     "ReadInputRegistersResponse", "ReadWriteMultipleRegistersResponse"):
+        return 2
+    if S.name in ("WriteMultipleCoilsRequest", "WriteMultipleRegistersRequest"):
+        return 6
+    if S.name == "ReadWriteMultipleRegistersRequest":
+        return 10
+    if S.name in ("ReadFileRecordRequest", "WriteFileRecordRequest", "ReadFileRecordResponse", "WriteFileRecordResponse",
+                  "GetCommEventLogResponse", "ReportSlaveIdResponse", "ReadFifoQueueResponse", "ReadDeviceInformationResponse"):
+        return 2
+    return None
+
+
+def holds_on_tree(framing, flens, bcpos, cuts, single_bytes=False):
+    """Which read schedules the listed findings KF-tcp-split-frames / KF-rtu-split-or-multiple-frames /
+    KF-binary-split-or-multiple-frames do NOT cover, i.e. for which the property is asserted. flens = frame lengths on
+    the wire, cuts = cut positions. A deliberately conservative description (a schedule it leaves out is treated as part
+    of the finding, never the other way round); fixed here, not computed from the code under test.
+      TCP:    every cut lies on a frame boundary (whole frames per read, empty reads allowed)
+      RTU:    one frame: cuts only at 0, 1 or the end. Two frames A B: one cut at or after the end of A; two or more cuts:
+              all at or after the end of A (or the first at 0/1), none leaving 2..byte-count-position bytes of a
+              variable-length B in the buffer
+      binary: one frame: cuts only at 0, 1 or the end. Two frames: a cut exactly between them, plus at most an empty
+              read / a read of the leading byte"""
+    if framing == "ascii":
+        return True
+    if single_bytes:
+        return False
+    L = sum(flens)
+    if framing == "tcp":
+        bounds = [0]
+        for fl in flens:
+            bounds.append(bounds[-1] + fl)
+        return all(c in bounds for c in cuts)
+    if len(flens) == 1:
+        return all(c in (0, 1, L) for c in cuts)
+    a = flens[0]
+    if framing == "rtu":
+        if len(cuts) == 0:
+            return False
+        if len(cuts) == 1:
+            return cuts[0] >= a
+        rest = list(cuts)
+        if rest[0] <= 1:
+            rest = rest[1:]
+        if not all(c >= a for c in rest):
+            return False
+        bc = bcpos[1]
+        if bc is None:
+            return True
+        return all((c - a) <= 1 or (c - a) > bc for c in rest)
+    if framing == "binary":
+        if len(cuts) == 1:
+            return cuts[0] == a
+        if len(cuts) == 2:
+            return tuple(cuts) in ((0, a), (1, a), (a, a), (a, a + 1), (a, L))
+        return False
+    return False
+
+
+def make_chunk(framing, specs, shapes, ncuts, single_bytes=False, part="all"):
+    """part: 'asserted' = only the schedules the listed findings do not cover (must hold), 'listed' = only the schedules
+    inside a listed finding (a whole-obligation finding), 'all' = every schedule"""
     lens = [S.blen(sh) for S, sh in zip(specs, shapes)]
     n = len(specs)
 
@@ -64,6 +135,13 @@ def make_chunk(framing, specs, shapes, ncuts, single_bytes=False):
         stream = b"".join(frames)
         L = len(stream)
         scheds = [tuple(range(1, L))] if single_bytes else schedules(L, ncuts)
+        if part != "all":
+            flens = [ln + {"tcp": 8, "rtu": 4, "binary": 6, "ascii": 0}[framing] for ln in lens]     # (concrete: wire lengths)
+            bcs = [rtu_bcpos(S) for S in specs]
+            keep = [c for c in scheds if holds_on_tree(framing, flens, bcs, c, single_bytes) == (part == "asserted")]
+            scheds = keep
+            if not scheds:
+                assume(False)
         for cuts in scheds:
             rx = F(_decoder(specs[0].dir))
             got = []
@@ -144,7 +222,7 @@ LEMMAS = {"tcp": (), "rtu": ("K1",), "binary": ("K1",), "ascii": ("K2",)}
 
 
 def whole(framing, nframes, ncuts):
-    """obligations wholly inside a listed known finding"""
+    """the listed known finding of a framing (for obligations wholly inside it)"""
     if framing == "tcp" and ncuts > 0:
         return "KF-tcp-split-frames"
     if framing == "rtu" and (ncuts > 0 or nframes > 1):
@@ -175,16 +253,32 @@ def obligations(tier):
                 specs = [by[nm] for nm in names]
                 shapes = [S.shapes("quick")[0] for S in specs]
                 contracts = CONTRACTS[framing] + (("bits",) if any(needs_bits(S) for S in specs) else ())
+                over = {"tcp": 8, "rtu": 4, "binary": 6}
                 for k in range(0, maxcuts + 1):
                     if tier == "quick" and framing == "ascii" and k == 2 and len(names) == 2:
                         continue      # two ASCII frames x every pair of cuts: thorough tier
                     if tier == "quick" and names[-1] == "ReadExceptionStatusRequest" and k == 2:
                         continue
-                    name = "chunk.%s.%s.%s.cuts%d" % (framing, d, "+".join(n.replace("Request", "Rq").replace("Response", "Rs") for n in names), k)
-                    out.append(Obl(name, make_chunk(framing, specs, shapes, k), timeout=T, contracts=contracts,
-                                   lemmas=LEMMAS[framing], whole_finding=whole(framing, len(names), k),
-                                   bounds="%s framing, stream of %d frame(s) %s with all field values/unit/tid symbolic; every schedule with exactly %d cut(s) (empty reads included)" % (
-                                       framing, len(names), list(names), k)))
+                    base = "chunk.%s.%s.%s.cuts%d" % (framing, d, "+".join(n.replace("Request", "Rq").replace("Response", "Rs") for n in names), k)
+                    bounds = "%s framing, stream of %d frame(s) %s with all field values/unit/tid symbolic; every schedule with exactly %d cut(s) (empty reads included)" % (
+                        framing, len(names), list(names), k)
+                    if framing == "ascii":
+                        out.append(Obl(base, make_chunk(framing, specs, shapes, k), timeout=T, contracts=contracts,
+                                       lemmas=LEMMAS[framing], bounds=bounds))
+                        continue
+                    # TCP / RTU / binary: the schedules are split into those the listed findings cover and the rest
+                    flens = [S.blen(sh) + over[framing] for S, sh in zip(specs, shapes)]
+                    bcs = [rtu_bcpos(S) for S in specs]
+                    sch = schedules(sum(flens), k)
+                    n_ok = sum(1 for c in sch if holds_on_tree(framing, flens, bcs, c))
+                    if n_ok:
+                        out.append(Obl(base, make_chunk(framing, specs, shapes, k, part="asserted"), timeout=T, contracts=contracts,
+                                       lemmas=LEMMAS[framing],
+                                       bounds=bounds + " -- the %d of %d schedules that the listed finding %s does not cover (holds_on_tree)" % (n_ok, len(sch), whole(framing, 2, 1))))
+                    if n_ok < len(sch):
+                        out.append(Obl(base + ".listed", make_chunk(framing, specs, shapes, k, part="listed"), timeout=T, contracts=contracts,
+                                       lemmas=LEMMAS[framing], whole_finding=whole(framing, 2, 1),
+                                       bounds=bounds + " -- the %d of %d schedules inside the listed finding" % (len(sch) - n_ok, len(sch))))
                 if tier != "quick":
                     name = "chunk.%s.%s.%s.single-bytes" % (framing, d, "+".join(names))
                     out.append(Obl(name, make_chunk(framing, specs, shapes, 0, single_bytes=True), timeout=T, contracts=contracts,
